@@ -106,6 +106,8 @@ func build(c Case) *gen.Program {
 		params = []string{"n"}
 	case "n,a":
 		params = []string{"n", "a"}
+	case "n,k":
+		params = []string{"n", "k"}
 	case "n,a,b":
 		params = []string{"n", "a", "b"}
 	case "n,...r", "n,...v":
@@ -129,6 +131,8 @@ func build(c Case) *gen.Program {
 	var args []gen.Expr
 	args = append(args, next)
 	switch c.Params {
+	case "n,k":
+		args = append(args, I("k")) // handed on unchanged
 	case "n,a":
 		args = append(args, B("+", I("a"), one))
 	case "n,a,b":
@@ -146,6 +150,8 @@ func build(c Case) *gen.Program {
 	// base value
 	var base gen.Expr = N("100")
 	switch c.Params {
+	case "n,k":
+		base = I("k")
 	case "n,a":
 		base = I("a")
 	case "n,a,b":
@@ -159,7 +165,11 @@ func build(c Case) *gen.Program {
 	}
 	if c.Capture {
 		// remember a closure over this iteration's parameter; keep only the first two and the last
-		cap := &gen.FuncLit{Body: []gen.Stmt{&gen.Return{X: I("n")}}}
+		var capv gen.Expr = I("n")
+		if c.Params == "n,k" {
+			capv = &gen.ArrayLit{Elems: []gen.Expr{I("n"), I("k")}} // k is handed on unchanged, then assigned in a later iteration
+		}
+		cap := &gen.FuncLit{Body: []gen.Stmt{&gen.Return{X: capv}}}
 		body = append(body, &gen.If{Cond: B("<", C("len", I("acc")), N("2")),
 			Then: []gen.Stmt{gen.Set(I("acc"), C("append", I("acc"), cap))}})
 		body = append(body, gen.Set(I("lastc"), cap))
@@ -168,6 +178,10 @@ func build(c Case) *gen.Program {
 			body = append(body, &gen.If{Cond: B("<", C("len", I("racc")), N("2")),
 				Then: []gen.Stmt{gen.Set(I("racc"), C("append", I("racc"), I("r"), I("n")))}})
 		}
+	}
+	if c.Params == "n,k" {
+		// a later iteration assigns the parameter (after the closures of the earlier iterations captured it)
+		body = append(body, &gen.If{Cond: B("==", I("n"), N("1")), Then: []gen.Stmt{gen.Set(I("k"), N("-1"))}})
 	}
 	isZero := B("==", I("n"), N("0"))
 	baseRet := &gen.If{Cond: isZero, Then: []gen.Stmt{&gen.Return{X: base}}}
@@ -236,6 +250,8 @@ func build(c Case) *gen.Program {
 	}
 	first := []gen.Expr{N(fmt.Sprint(c.Depth))}
 	switch c.Params {
+	case "n,k":
+		first = append(first, N("5"))
 	case "n,a":
 		first = append(first, N("0"))
 	case "n,a,b":
@@ -404,7 +420,7 @@ func main() {
 		depths = append(depths, 300, 511, 682, 2047, 2048, 10000, 1000000)
 	}
 	var cases []Case
-	for _, ps := range []string{"n", "n,a", "n,a,b", "n,...r", "n,...v"} {
+	for _, ps := range []string{"n", "n,a", "n,k", "n,a,b", "n,...r", "n,...v"} {
 		for locals := 0; locals <= 2; locals++ {
 			for _, capt := range []bool{false, true} {
 				for _, cx := range contexts {
